@@ -39,6 +39,17 @@ def run_check(prop, tier, env):
 def main():
     global REPO
     args = sys.argv[1:]
+    if '--jobs' in args:
+        # split the work over N scratch worktrees (implies --scratch); each worker is this script on a share
+        i = args.index('--jobs')
+        n = int(args[i + 1])
+        rest = args[:i] + args[i + 2:]
+        only = [a for a in rest if not a.startswith('--')] or sorted(
+            x for x in os.listdir(os.path.join(VERIF, 'seeded')) if os.path.isfile(os.path.join(VERIF, 'seeded', x, 'patch.diff')))
+        flags = [a for a in rest if a.startswith('--') and a != '--scratch']
+        procs = [subprocess.Popen([sys.executable, os.path.abspath(__file__), '--scratch'] + flags + only[k::n])
+                 for k in range(n) if only[k::n]]
+        sys.exit(max(p.wait() for p in procs))
     every = '--all' in args
     only = [a for a in args if not a.startswith('--')]
     scratch = tempfile.mkdtemp(prefix='seeded_run_')
